@@ -3,7 +3,7 @@ CONSTANTS
   MaxDims = 3
   Lens = {2, 3}
   DestSet = {"stdout", "stale", "inplace"}
-  AB_KeepOldTail = FALSE
+  AB_KeepOldTail = TRUE
   AnyOrder = FALSE
   ShapeSet <- MCShapeSet
 INVARIANTS
